@@ -124,6 +124,7 @@ func genYOpts(t *rapid.T, label string) m.YOpts {
 		SeqIndent: rapid.Bool().Draw(t, label+"SeqIndent"),
 		Header:    rapid.Bool().Draw(t, label+"Header"),
 		Literal:   rapid.Bool().Draw(t, label+"Literal"),
+		NumStyle:  rapid.SampledFrom([]int{0, 0, 0, 1, 2, 3, 4, 5, 6, 7}).Draw(t, label+"NumStyle"),
 	}
 }
 
